@@ -43,9 +43,9 @@ Section C18.
     state_ok w assumed ->
     get_file_ticket teqb hc w p assumed = option_map (fun f => hc (f_content f)) (fget w p).
   Proof.
-    intros [_ Hok]. unfold get_file_ticket. destruct (fget w p) as [f|] eqn:Ef; [|reflexivity].
+    intros Hok. unfold get_file_ticket. destruct (fget w p) as [f|] eqn:Ef; [|reflexivity].
     cbn [option_map]. destruct (shortcut teqb hc f assumed) eqn:E; [|reflexivity]. f_equal.
-    apply InvProofs.shortcut_mtime in E. apply Hok; [eapply InvProofs.any_file_path; exact Ef | exact E].
+    eapply InvProofs.state_ok_shortcut; [exact Hok | eapply InvProofs.any_file_path; exact Ef | exact E].
   Qed.
 
   Theorem actual_state_transparent_main (w : world) p assumed :
@@ -53,9 +53,9 @@ Section C18.
     get_actual_file_state teqb hc w p assumed =
     option_map (fun f => mk_fstate (hc (f_content f)) (f_mtime f) (f_exec f)) (fget w p).
   Proof.
-    intros [_ Hok]. unfold get_actual_file_state. destruct (fget w p) as [f|] eqn:Ef; [|reflexivity].
+    intros Hok. unfold get_actual_file_state. destruct (fget w p) as [f|] eqn:Ef; [|reflexivity].
     cbn [option_map]. destruct (shortcut teqb hc f assumed) eqn:E; [|reflexivity]. do 2 f_equal.
-    apply InvProofs.shortcut_mtime in E. apply Hok; [eapply InvProofs.any_file_path; exact Ef | exact E].
+    eapply InvProofs.state_ok_shortcut; [exact Hok | eapply InvProofs.any_file_path; exact Ef | exact E].
   Qed.
 
   (* ================================================================== *)
@@ -449,8 +449,8 @@ Section C18.
     blobs_ok w b b' /\ tbl_ok w t1 /\ tbl_ok w t1'.
   Proof.
     intros Hk Ht Ht' E E'.
-    destruct (InvProofs.take_blob_ok T teqb hc _ _ _ _ _ Hk Ht E) as [Hb Ht1].
-    destruct (InvProofs.take_blob_ok T teqb hc _ _ _ _ _ Hk Ht' E') as [Hb' Ht1'].
+    destruct (InvProofs.take_blob_ok T teqb hc teqb_spec _ _ _ _ _ Ht E) as [Hb Ht1].
+    destruct (InvProofs.take_blob_ok T teqb hc teqb_spec _ _ _ _ _ Ht' E') as [Hb' Ht1'].
     pose proof (take_blob_fst T hc paths t) as F. rewrite E in F.
     pose proof (take_blob_fst T hc paths t') as F'. rewrite E' in F'. cbn [fst] in F, F'.
     split; [|split; assumption]. split; [exact Hb|]. split; [exact Hb'|]. congruence.
